@@ -29,6 +29,8 @@ func sourceProfile(prop string, checks ...string) *Profile {
 	p.Weights[opSend] = 8
 	p.Weights[opDeliver] = 10
 	p.Weights[opSetID] = 1
+	p.Weights[opBurst] = 1     // some stored logs are longer than any default concurrency, queue or pool
+	p.Weights[opFan] = 1       // ... or wider
 	p.Weights[opClockJump] = 2 // writers may carry Lamport clocks of any magnitude
 	p.ClockJumps = true
 	return p
